@@ -2,7 +2,12 @@
 
 package node
 
-import "github.com/paulsonkoly/calc/vm"
+import (
+	"bufio"
+	"strings"
+
+	"github.com/paulsonkoly/calc/vm"
+)
 
 // Accessors for the verification harnesses (the REPL helpers are unexported).
 
@@ -28,3 +33,9 @@ func (l *VerifLines) read() (string, error) {
 func (l *VerifLines) Close() error { return nil }
 
 func VerifLoop(l *VerifLines, p Parser, m *vm.Type, doOut bool) { Loop(l, p, m, doOut) }
+
+// VerifFileLoop runs the script-file loop with the real file reader (FReader) over a file whose
+// content is text (the operating system file is replaced by an in-memory reader).
+func VerifFileLoop(text string, p Parser, m *vm.Type, doOut bool) {
+	Loop(FReader{b: bufio.NewReader(strings.NewReader(text))}, p, m, doOut)
+}
